@@ -298,7 +298,7 @@ pub fn run(cx: &mut Ctx) {
         }
     }
     // random
-    let n = cx.a.n(20_000, 1_500_000);
+    let n = cx.a.n(60_000, 1_500_000);
     for _ in 0..n {
         cx.case("random_histories", |c| {
             c.sit("random_histories");
